@@ -7,6 +7,14 @@ import json, os, subprocess
 ROOT = os.path.dirname(os.path.dirname(os.path.abspath(__file__)))
 
 CHECKS = {
+    "C02": dict(cat="exploration", sec="5 C02",
+                tech="runtime monitor: defect-injecting token-request generator against a full in-process authorization server + reference predicate; introspection compared with issuance facts; session-store write hooks",
+                text="The harness owns did:jwk holders, has the real node issue credentials to them and signs its own JWT presentations, so every single defect (and seeded pairs) of a valid "
+                     "vp_token-bearer request can be produced: audience, validity window, nonce missing/reused, signer != subject, mixed subjects, foreign/unknown definition, forged descriptor map, "
+                     "bad VP/VC signatures, revoked/expired credential, scope, missing parameters; plus client_id/PKCE/replay defects on real authorization-code requests captured from the OpenID4VP flow. "
+                     "Oracle: token issued iff defect set empty; no access-token store write on refusal (hook); introspection (standard+extended) equals issuance facts, inactive for never-issued/aged tokens; "
+                     "hostile definition field ids never override response members.",
+                note="Presentations are harness-signed jwt_vp (JSON-LD VP only via the node's own client); OpenID4VP wallet-response defects not generated; expiry by ageing the stored token, not by waiting."),
     "C05": dict(cat="exploration", sec="5 C05",
                 tech="runtime monitor: hook-steered interleavings of session-store operations over real OAuth flows on a full in-process node; at-most-once history oracle; race detector",
                 text="A complete in-process node runs the real RFC021 s2s and OpenID4VP authorization-code flows through a harness-owned proxy that withholds the redeeming hop, "
